@@ -14,7 +14,7 @@ def kindOfName : String → Option Kind
 
 def kindName : Kind → String
   | .list => "list" | .tuple => "tuple" | .set => "set" | .fset => "fset" | .dict => "dict"
-  | .inst k => s!"inst:{k}" | .opq 0 => "bytearray" | .opq _ => "deque"
+  | .inst k _ => s!"inst:{k}" | .opq 0 => "bytearray" | .opq _ => "deque"
   | .usr .list => "SL" | .usr .tuple => "ST" | .usr .set => "SS" | .usr .fset => "SF"
   | .usr .dict => "SD" | .usr .deque => "SQ" | .usr .ntuple => "NT"
 
@@ -45,7 +45,7 @@ def canonKids : Val → List Val
   | .node _ k ks xs =>
       match k.base with
       | .dict => (sortKV (ks.zip xs)).map (·.2)
-      | .inst _ => match ks.zip xs with
+      | .inst _ _ => match ks.zip xs with
         | p :: r => p.2 :: (sortKV r).map (·.2)
         | [] => []
       | .set | .fset => sortA xs
@@ -57,7 +57,7 @@ def walkPath : Val → List Nat → Bool → Option (Val × Bool)
   | v, [], f => some (v, f)
   | v, i :: p, _ =>
       match (canonKids v)[i]? with
-      | some c => walkPath c p (match v with | .node _ (.inst _) _ _ => i == 0 | _ => false)
+      | some c => walkPath c p (match v with | .node _ (.inst _ _) _ _ => i == 0 | _ => false)
       | none => none
 
 structure B where
@@ -274,7 +274,7 @@ def stepJ (legacy : Bool) (envJ : Json) (r : Run) (j : Json) : Run :=
       let root := nat! (fld j "root")
       let fname := str! (fld j "field")
       match r.w.root root with
-      | some (.node _ (.inst k) _ _) =>
+      | some (.node _ (.inst k _) _ _) =>
           let ok := match r.w.env[k]? with
             | some d => d.fields.any (fun f => f.name == fname && (match f.ty with | .any | .int => true | _ => false))
             | none => false
@@ -284,7 +284,7 @@ def stepJ (legacy : Bool) (envJ : Json) (r : Run) (j : Json) : Run :=
       | _ => { r with outs := r.outs ++ [.skip] }
   | "copy" =>
       match r.w.root (nat! (fld j "root")) with
-      | some (.node _ (.inst k) _ _) =>
+      | some (.node _ (.inst k _) _ _) =>
           if (r.w.env[k]?.map (·.kind == .schema)).getD false then fin (stp r.w (.copy (nat! (fld j "root"))))
           else { r with w := { r.w with roots := r.w.roots ++ [none] }, outs := r.outs ++ [.skip] }
       | _ => { r with w := { r.w with roots := r.w.roots ++ [none] }, outs := r.outs ++ [.skip] }
